@@ -19,6 +19,11 @@ Decided clauses:
         control skeleton: every branch condition and every reference-index computation agrees (E7).
   R10.4 contradiction rules on the limb code of every alternative backend: no identically-zero carry
         (E12 known-bits) and no branch-free select mixing unrelated values.
+  R10.6 (E11) the software stand-ins of the AES-NI lane intrinsics (softaes_block_*) let every bit of an integer operand reach the
+        block they build.
+  R10.7 every compiled stream backend carries its 64-bit block counter (C03's R3.2 engine: write-backs of the high word depend on
+        the low word; no vector operation feeds a value derived from the high word alone into the state), so a backend that
+        builds per-lane counters with 32-bit adds cannot silently diverge from the others when the low word wraps in a batch.
 NOT decided: byte-identity of results across backends / build configurations (equivalence of
 implementations).
 """
@@ -374,6 +379,26 @@ def run(ctx, chk):
                               allowed=[("_sodium_scalarmult_curve25519_sandy2x_fe_frombytes",
                                         "sandy2x decoder: h9 has 25 bits by construction, `carry9 = h9 >> 25` is zero by design")], floor=60)
     knownbits.select_idiom_rule(prog, chk, "R10.4", BACKEND_UNITS, floor=3)
+
+    # ---- R10.7 every stream backend carries its 64-bit block counter (same engine as C03 R3.2, reported here because a backend
+    # that builds per-lane counters with 32-bit adds diverges from the others only when the low word wraps inside a batch) -------
+    from . import c03
+
+    class _Renamed:
+        def __init__(self, inner):
+            self._c = inner
+
+        def ob(self, rule, *a, **kw):
+            if "key" in kw and kw["key"]:
+                kw["key"] = "R10.7/" + kw["key"]
+            return self._c.ob("R10.7/" + rule, *a, **kw)
+
+        def floor(self, rule, *a, **kw):
+            return self._c.floor("R10.7/" + rule, *a, **kw)
+
+        def __getattr__(self, n):
+            return getattr(self._c, n)
+    c03.carry_rule(prog, _Renamed(chk))
 
     # ---- R10.6 the portable AES block helpers use every bit of their integer operands (E11) ----------------------------------
     softaes_rule(ctx, prog, chk)
